@@ -168,7 +168,7 @@ fn scenario_full(out: &mut Out, networks: usize, acts: &[Act], nontrivial: bool,
 /// The producer is a real client session (`UnixServer` session task on a scripted transport) holding the runtime's
 /// command sender: `burst` drive commands and a final stop-all arrive in one read while network 0's handler is held.
 /// Emitted in the ordinary `bus` format: the sends are the frames, in order (ids = the drive values, 9999 = stop-all).
-fn via_session(out: &mut Out, networks: usize, burst: usize) {
+pub fn via_session(out: &mut Out, networks: usize, burst: usize) {
     let rt = tokio::runtime::Builder::new_current_thread().enable_all().build().unwrap();
     let shared = Arc::new(Shared {
         handled: Mutex::new(vec![vec![]; networks]),
